@@ -34,7 +34,9 @@ for perm in itertools.permutations(range(3)):
         OCT.append(m)
 
 FAMS = ["sl-npa", "sl-nst", "vj-mgga", "vj-gga", "vi-mgga", "vi-gga", "vij-mgga", "vk-mgga", "sdmx", "sdmxg1",
-        "vj+sdmx", "sdmx1", "vk-gga", "vj-expnt"]
+        "vj+sdmx", "sdmx1", "vk-gga", "vj-expnt",
+        # two vector (l = 1) SDMX terms in one settings object (their x, y, z blocks sit side by side in one buffer)
+        "sdmx1b", "sdmxg1b"]
 NLDF = {"vj-mgga", "vj-gga", "vi-mgga", "vi-gga", "vij-mgga", "vk-mgga", "vk-gga", "vj+sdmx", "vj-expnt"}
 
 
